@@ -53,6 +53,16 @@ pub fn sign_token(header: &Value, payload: &Value, key: KeyId, alg: &str) -> Str
     format!("{}.{}", msg, sig)
 }
 
+/// sign RAW header and payload texts (JSON that no serde_json::Value can express: repeated member names, odd spellings)
+pub fn sign_raw(header_text: &str, payload_text: &str, key: KeyId, alg: &str) -> String {
+    let msg = format!("{}.{}", b64(header_text.as_bytes()), b64(payload_text.as_bytes()));
+    let sig = match alg_of_name(alg) {
+        Some(a) => jsonwebtoken::crypto::sign(msg.as_bytes(), &key.encoding(), a).unwrap_or_else(|_| "AAAA".into()),
+        None => String::new(),
+    };
+    format!("{}.{}", msg, sig)
+}
+
 /// sign with the natural algorithm of the key and a header {"alg":..}
 pub fn sign_payload(payload: &Value, key: KeyId) -> String {
     sign_token(&json!({"alg": key.alg()}), payload, key, key.alg())
